@@ -29,7 +29,7 @@ from harness import tlc  # noqa: E402
 from harness.loop import Controller, IdleLoop  # noqa: E402
 from harness.runner import Scratch, pmap  # noqa: E402
 
-KINDS = ["ok", "usage", "internal", "unknown", "hidden", "badargs", "garbage", "oversize", "close"]
+KINDS = ["ok", "usage", "internal", "intcancel", "unknown", "hidden", "badargs", "garbage", "oversize", "close"]
 NCALLS = 3
 
 
@@ -71,28 +71,41 @@ def run_scenario(sc: dict) -> list[dict]:
     trace = [{"ev": "start", "kinds": kinds, "units": units}]
     events: dict[int, asyncio.Event] = {}
 
-    class Handler:
-        @rpc.allow_rpc
-        async def ok(self, c):
-            trace.append({"ev": "entered", "c": c})
-            await events[c].wait()
-            return ("value", c)
+    def make_handler(tr, evs):
+        class Handler:
+            @rpc.allow_rpc
+            async def ok(self, c):
+                tr.append({"ev": "entered", "c": c})
+                await evs[c].wait()
+                return ("value", c)
 
-        @rpc.allow_rpc
-        async def usage(self, c):
-            trace.append({"ev": "entered", "c": c})
-            await events[c].wait()
-            raise GraphError(f"usage error of call {c}")
+            @rpc.allow_rpc
+            async def usage(self, c):
+                tr.append({"ev": "entered", "c": c})
+                await evs[c].wait()
+                raise GraphError(f"usage error of call {c}")
 
-        @rpc.allow_rpc
-        async def internal(self, c):
-            trace.append({"ev": "entered", "c": c})
-            await events[c].wait()
-            raise RuntimeError(f"internal error of call {c}")
+            @rpc.allow_rpc
+            async def internal(self, c):
+                tr.append({"ev": "entered", "c": c})
+                await evs[c].wait()
+                raise RuntimeError(f"internal error of call {c}")
 
-        async def hidden(self, c):
-            trace.append({"ev": "entered", "c": c})
-            return "must never run"
+            @rpc.allow_rpc
+            async def intcancel(self, c):
+                tr.append({"ev": "entered", "c": c})
+                await evs[c].wait()
+                raise asyncio.CancelledError(f"cancelled inside the director, call {c}")
+
+            async def hidden(self, c):
+                tr.append({"ev": "entered", "c": c})
+                return "must never run"
+
+        return Handler()
+
+    # a second connection of the same server with one slow call in flight during the whole scenario
+    trace2 = [{"ev": "start", "kinds": ["ok", "ok", "ok"], "units": [3, 3, 3]}]
+    events2 = {1: asyncio.Event()}
 
     # wire bytes of every message, cut into units
     pieces: list[bytes] = []
@@ -133,8 +146,36 @@ def run_scenario(sc: dict) -> list[dict]:
         writer = Writer()
         for c in range(1, NCALLS + 1):
             events[c] = asyncio.Event()
-        conn = rpc.RPCServerConnection(Handler(), reader, writer)
+        conn = rpc.RPCServerConnection(make_handler(trace, events), reader, writer)
         serve = asyncio.ensure_future(conn.serve())
+        reader2 = asyncio.StreamReader()
+        writer2 = Writer()
+        conn2 = rpc.RPCServerConnection(make_handler(trace2, events2), reader2, writer2)
+        serve2 = asyncio.ensure_future(conn2.serve())
+        msg2 = rpc._encode_message(1, rpc._encode_body(rpc.RPCCall("ok", (1,))))
+        reader2.feed_data(msg2)
+        trace2.extend([{"ev": "write", "n": 3}, {"ev": "deliver", "n": 3}])
+        off2 = [0]
+
+        def collect2():
+            buf = bytes(writer2.buf)
+            while len(buf) - off2[0] >= 16:
+                cid = int.from_bytes(buf[off2[0]:off2[0] + 8], "big")
+                size = int.from_bytes(buf[off2[0] + 8:off2[0] + 16], "big")
+                if len(buf) - off2[0] - 16 < size:
+                    break
+                body = buf[off2[0] + 16:off2[0] + 16 + size] if size else None
+                off2[0] += 16 + size
+                try:
+                    rpc._decode_response(body, rpc.RPCCall("x"), server_log_description=None)
+                    what = "result"
+                except UsageError:
+                    what = "usage_error"
+                except rpc.RPCError:
+                    what = "remote_error" if body is not None else "no_reply"
+                except Exception as exc:  # noqa: BLE001
+                    what = "other:" + type(exc).__name__
+                trace2.append({"ev": "reply", "c": cid, "what": what})
         serve_exc = []
         written = delivered = 0
         eof = False
@@ -166,7 +207,8 @@ def run_scenario(sc: dict) -> list[dict]:
             for _ in range(3):
                 await ctl.gate("idle:settle")
             collect()
-            if serve.done() and not any(t["ev"] == "closed" for t in trace):
+            collect2()
+            if serve.done() and not serve.cancelled() and not any(t["ev"] == "closed" for t in trace):
                 if serve.exception() is not None:
                     serve_exc.append(repr(serve.exception())[:200])
                 trace.append({"ev": "closed"})
@@ -231,6 +273,22 @@ def run_scenario(sc: dict) -> list[dict]:
                 await serve
             except BaseException:  # noqa: BLE001
                 pass
+        # the bystander: its call completes now, is answered, then its peer leaves
+        if not serve2.done():
+            trace2.append({"ev": "finish", "c": 1})
+            events2[1].set()
+            await settle()
+            trace2.append({"ev": "eof"})
+            reader2.feed_eof()
+            await settle()
+        if serve2.done():
+            trace2.append({"ev": "closed"})
+        else:
+            serve2.cancel()
+            try:
+                await serve2
+            except BaseException:  # noqa: BLE001
+                pass
         return serve_exc
 
     try:
@@ -245,21 +303,22 @@ def run_scenario(sc: dict) -> list[dict]:
             pass
         asyncio.set_event_loop(None)
         loop.close()
-    return trace
+    return trace, trace2
 
 
 def exec_scenario(sc):
     import logging
 
     logging.disable(logging.CRITICAL)
-    return {"sc": sc, "trace": run_scenario(sc)}
+    t1, t2 = run_scenario(sc)
+    return [{"sc": sc, "trace": t1}, {"sc": dict(sc, id=sc["id"] + "/bystander"), "trace": t2}]
 
 
 def make_scenarios(seed: int, n: int):
     rng = random.Random(seed)
     out = []
     for i in range(n):
-        kinds = [rng.choice(KINDS[:6]) if rng.random() < 0.8 else rng.choice(KINDS) for _ in range(NCALLS)]
+        kinds = [rng.choice(KINDS[:7]) if rng.random() < 0.8 else rng.choice(KINDS) for _ in range(NCALLS)]
         units = [2 if k in ("close", "oversize") else rng.choice([3, 4]) for k in kinds]
         out.append({"id": f"s{seed}-{i}", "kinds": kinds, "units": units, "seed": seed * 100003 + i,
                     "p_eof": rng.choice([0.0, 0.0, 0.05, 0.15]), "eof_at_end": rng.random() < 0.5})
@@ -343,7 +402,7 @@ def main(argv=None):
             if kind == "err":
                 report.machinery("rpc harness crashed: " + r[:1500])
             else:
-                results.append(r)
+                results.extend(r)
         chunks = [results[i:i + 400] for i in range(0, len(results), 400)]
         nstates = accepted = 0
         from concurrent.futures import ThreadPoolExecutor
